@@ -26,7 +26,7 @@ Record lsim := {
   z_hold : option N;       (* once dead: remaining time the pipes stay open; None = closed *)
   z_frozen : bool;
   z_reqs : list (N * ureq);
-  z_trace : list (N * N * lout);   (* (time, attempt, output), most recent first *)
+  z_trace : list (N * N * N);      (* (time, attempt, output code), most recent first *)
   z_marks : list (N * N * N) }.    (* (kind, attempt, time), most recent first *)
 
 Definition mkz nw s l cs dk ds h fr rq tr mk : lsim :=
@@ -41,6 +41,8 @@ Definition z_with_frozen z fr := mkz (z_now z) (z_s z) (z_left z) (z_cstopped z)
 Definition z_with_reqs z rq := mkz (z_now z) (z_s z) (z_left z) (z_cstopped z) (z_dead_ok z) (z_dead_seen z) (z_hold z) (z_frozen z) rq (z_trace z) (z_marks z).
 Definition z_with_trace z tr := mkz (z_now z) (z_s z) (z_left z) (z_cstopped z) (z_dead_ok z) (z_dead_seen z) (z_hold z) (z_frozen z) (z_reqs z) tr (z_marks z).
 Definition z_mark z kind k := mkz (z_now z) (z_s z) (z_left z) (z_cstopped z) (z_dead_ok z) (z_dead_seen z) (z_hold z) (z_frozen z) (z_reqs z) (z_trace z) ((kind, k, z_now z) :: z_marks z).
+
+Definition z_mark_v z kind k v := mkz (z_now z) (z_s z) (z_left z) (z_cstopped z) (z_dead_ok z) (z_dead_seen z) (z_hold z) (z_frozen z) (z_reqs z) (z_trace z) ((kind, k, v) :: z_marks z).
 
 Definition default_beh : tbeh :=
   {| b_dur := 0; b_exit_ok := true; b_on_term := OnTermExit; b_hold := 0; b_stops := true |}.
@@ -72,9 +74,27 @@ Definition z_react (b : tbeh) (z : lsim) (sg : usig) : lsim :=
       end
   end.
 
+Definition lout_code (o : lout) : N :=
+  match o with
+  | LO x => out_code x
+  | LAttemptFailedWillRetry _ _ => 200
+  | LRetryStarted _ => 201
+  | LFinished _ => 202
+  end.
+
+(* outputs go to the trace; signals reach the child if it is still alive (a signal sent to the
+   group of a child that has already died is marked: code + 1000) *)
+Definition child_alive (z : lsim) : bool :=
+  match z_left z with Some 0 | None => false | Some _ => true end.
+
 Definition z_apply_outs (b : tbeh) (k : N) (z : lsim) (outs : list lout) : lsim :=
-  let z1 := fold_left (fun acc o => match o with LO (OSignal sg) => z_react b acc sg | _ => acc end) outs z in
-  z_with_trace z1 (rev (map (fun o => (z_now z1, k, o)) outs) ++ z_trace z1).
+  fold_left (fun acc o =>
+               let code := match o with
+                           | LO (OSignal _) => if child_alive acc then lout_code o else lout_code o + 1000
+                           | _ => lout_code o
+                           end in
+               let acc1 := match o with LO (OSignal sg) => z_react b acc sg | _ => acc end in
+               z_with_trace acc1 ((z_now acc1, k, code) :: z_trace acc1)) outs z.
 
 Definition cancel_sent (allreqs : list (N * ureq)) (nw : N) : bool :=
   existsb (fun p => (fst p <=? nw) && is_cancel_req (snd p)) allreqs.
@@ -115,7 +135,7 @@ Section Sim.
         Ok (match phase_code s, phase_code s' with
             | 1, 1 | 2, 2 => z2
             | 1, 2 =>
-                let z3 := z_mark z2 2 k in
+                let z3 := z_mark_v (z_mark z2 2 k) 5 k (l_delay s') in
                 if unicast && cancel_sent allreqs (z_now z)
                 then z_with_reqs z3 (enqueue_now (z_now z) ROtherCancel (z_reqs z3)) else z3
             | 1, _ => z_mark (z_mark z2 2 k) 4 k
@@ -256,17 +276,10 @@ End Sim.
 Definition z_init (c : lcfg) (rs : list (N * ureq)) : lsim :=
   mkz 0 (linit c) None false false false None false rs [] [].
 
-Definition lout_code (o : lout) : N :=
-  match o with
-  | LO x => out_code x
-  | LAttemptFailedWillRetry _ _ => 200
-  | LRetryStarted _ => 201
-  | LFinished _ => 202
-  end.
-
 (* [[panicked?; how it ended (4 finished / 5 refused / other: still going); attempts started; end time];
     per finished attempt, oldest first: no, result, slow, time_taken (flattened);
-    marks, oldest first: kind, attempt, time (flattened) -- 1 attempt start, 2 attempt end, 3 delay end, 4 unit end;
+    marks, oldest first: kind, attempt, time (flattened) -- 1 attempt start, 2 attempt end, 3 delay end, 4 unit end
+      (5: attempt, delay chosen after it);
     trace, oldest first: time, attempt, code (flattened);
     delays chosen after each failed attempt: attempt, delay (flattened)] *)
 Definition life_report (tbl : ptable) (cfg : ucfg) (pol : policy) (behs : list tbeh)
@@ -279,8 +292,7 @@ Definition life_report (tbl : ptable) (cfg : ucfg) (pol : policy) (behs : list t
         flat_map (fun r => [ar_no r; res_code (ar_result r); if ar_slow r then 1 else 0; ar_time r])
                  (rev (l_done (z_s z)));
         flat_map (fun m => [fst (fst m); snd (fst m); snd m]) (rev (z_marks z));
-        flat_map (fun p => [fst (fst p); snd (fst p); lout_code (snd p)]) (rev (z_trace z));
-        flat_map (fun p => match snd p with
-                           | LAttemptFailedWillRetry k d => [k; d]
-                           | _ => [] end) (rev (z_trace z)) ]
+        flat_map (fun p => [fst (fst p); snd (fst p); snd p]) (rev (z_trace z));
+        flat_map (fun m => match fst (fst m) with 5 => [snd (fst m); snd m] | _ => [] end)
+                 (rev (z_marks z)) ]
   end.
